@@ -233,8 +233,37 @@ class C03:
             got = g[3:].rsplit(" ", 1)[0]
             if got != want and not allowed:
                 ctx.violate("decode(encode(v)) is not the value / its documented normal form", line[:3000], want[:1500], got[:1500])
+        self.reflect_tie(ctx)
         for i in range(0, len(lines), max(1, len(lines) // 8)):
             ctx.sample(lines[i][:300] + " -> " + go[i][:200])
+
+    def reflect_tie(self, ctx):
+        """Application structs (tagged / untagged / embedded fields), typed slices, arrays and maps, pointers: many different Go
+        types encoded one after another by each harness process (so anything remembered per type, per name or per process shows);
+        the bytes must be the model's for the described value, whose decoding is the normal form proved in C03_normal_form."""
+        rng = ctx.rng
+        n = ctx.scale(2000, 30000)
+        base = ctx.seed * 5000011
+        lines = [f"encr {base + i} {rng.randint(0, 5)} {rng.randint(0, 1)}" for i in range(n)]
+        go = C.run_sharded(C.run_go, lines)
+        mlines = []
+        for line, g in zip(lines, go):
+            f = line.split(" ")
+            mlines.append(f"encr {f[2]} {f[3]} {g.split(' => ')[0] if ' => ' in g else 'inv'}")
+        lean = C.run_sharded(C.run_lean, mlines)
+        for line, ml, g, l in zip(lines, mlines, go, lean):
+            ctx.evaluations += 1
+            if " => " not in g:
+                ctx.count("reflect:generator-failed")
+                continue
+            desc, res = g.split(" => ", 1)
+            multi = "rmap(" in desc or "=" in desc
+            gi = res + " x" if res.startswith("ERR ") else res
+            ctx.count("reflect:" + ("tagged-struct" if "=" in desc else "struct" if "st(" in desc else "other"))
+            norm = lambda a: " ".join(a.split(" ")[:2]) if a.startswith("ERR") else a     # noqa: E731
+            ctx.tie(ml[:3000], norm(gi), norm(l), project=enc_project if multi else None)
+            if res.startswith("PANIC"):
+                ctx.violate("Encode panicked on a generated value", line + "   value: " + desc[:1500], "bytes or an error", res[:300])
 
 
 def own_corpus_lines(prop):
